@@ -4,10 +4,12 @@
 cd "$(dirname "$(readlink -f "$0")")/.." || exit 3
 tier=${1:-quick}; seed=${2:-1}; shift; shift
 props=${*:-$(sort tools/registered.txt)}
+bad=0
 for p in $props; do
   t0=$(date +%s)
   out=$(VERIF_SEED=$seed ./check $p $tier 2>/dev/null); rc=$?
   t1=$(date +%s)
   echo "$p $tier seed=$seed rc=$rc $((t1-t0))s $(echo "$out" | grep -E '^(VIOLATION|INCONCLUSIVE|HARNESS)' | head -5 | tr '\n' ' ')"
-  [ $rc -ne 0 ] && echo "$out" | grep -E '^(VIOLATION|  signature|INCONCLUSIVE|HARNESS)' | head -20
+  [ $rc -ne 0 ] && bad=1 && echo "$out" | grep -E '^(VIOLATION|  signature|INCONCLUSIVE|HARNESS)' | head -20
 done
+exit $bad
